@@ -563,6 +563,6 @@ def generate(ctx):
             status[name] = None
         except Exception as e:   # fail closed
             status[name] = f'{type(e).__name__}: {e}'
-            out += f'(* {name}: UNSUPPORTED {str(e)[:300].replace("*)", "* )")} *)\n'
+            out += f'(* {name}: UNSUPPORTED {P.comment_safe(e)} *)\n'
     ctx.write('Gen_selcop.v', out)
     return status, info
